@@ -43,7 +43,7 @@ const verifScanMaxL = 3
 // panicking; tokens come in source order without overlap, carry exactly the input bytes of
 // their range, skip only blanks, end with EOF, and every range lies inside the input.
 func H_c17_json_scan() {
-	L := nondet_choice("L", verifScanMaxL+1)
+	L := nondet_choice("L", verif_bound("json-scan-maxL", verifScanMaxL, 4)+1)
 	src := nondet_bytes("src", L)
 	toks := scan(src, pos{Filename: "f", Pos: hclPos1()})
 	verif_assert(len(toks) >= 1, "at least the EOF token")
